@@ -122,7 +122,10 @@ func genIncludeTreeWithFault(r vlib.Rnd) *vlib.Project {
 	blockID := 0
 	block := func() string {
 		blockID++
-		switch r.Intn(4) {
+		switch r.Intn(5) {
+		case 4:
+			// a multi-line Description: its text is normalised from the file's bytes when the catalog is built
+			return fmt.Sprintf("GET /d%d%s  Description%s    first line%s    second line%s%s    third line%s  200 any%s", blockID, nl, nl, nl, nl, nl, nl, nl)
 		case 0:
 			return fmt.Sprintf("TYPE @t%d%s  {\"a\": %d}%s", blockID, nl, blockID, nl)
 		case 1:
@@ -141,7 +144,10 @@ func genIncludeTreeWithFault(r vlib.Rnd) *vlib.Project {
 		return ""
 	}
 	fault := func() string {
-		switch r.Intn(6) {
+		switch r.Intn(7) {
+		case 6:
+			// an error of the catalog building phase (after the Description texts of the file have been processed)
+			return "GET /late" + nl + "  200" + nl + "    {\"x\": @undefinedInBody}" + nl
 		case 0:
 			return "TYPE @dup" + nl + "  1" + nl + "TYPE @dup" + long() + nl + "  2" + nl
 		case 1:
@@ -195,7 +201,12 @@ func genIncludeTreeWithFault(r vlib.Rnd) *vlib.Project {
 				if vlib.Chance(r, 1, 3) {
 					bodies[from].WriteString(block())
 				}
-				bodies[from].WriteString("INCLUDE " + target + nl)
+				if vlib.Chance(r, 1, 6) {
+					// a block comment between the keyword and the file name, over several lines
+					bodies[from].WriteString("INCLUDE ###" + nl + "  which file" + nl + "### " + target + nl)
+				} else {
+					bodies[from].WriteString("INCLUDE " + target + nl)
+				}
 				included[t] = true
 			}
 		}
